@@ -151,10 +151,11 @@ def run_property(prop: str, tier: str, seed: int):
     }
     if violation is not None:
         ev["violation"] = {"replay": violation[0], "message": violation[1]}
-    os.makedirs(os.path.join(H.VERIF, "evidence"), exist_ok=True)
+    evdir = os.environ.get("VERIF_EVIDENCE_DIR") or os.path.join(H.VERIF, "evidence")
+    os.makedirs(evdir, exist_ok=True)
     text = json.dumps(ev, indent=1, default=H._json_default)
     text = _NUMLIST.sub(lambda m: "[" + re.sub(r"\s+", "", m.group(1)) + "]", text)
-    with open(os.path.join(H.VERIF, "evidence", f"{prop}.json"), "w") as f:
+    with open(os.path.join(evdir, f"{prop}.json"), "w") as f:
         f.write(text + "\n")
     for line in out_lines:
         print(line)
